@@ -129,6 +129,9 @@ var (
 	tOpGs   = &ty{k: "opgroups"}
 	tFuncP  = &ty{k: "funcptr"} // *runtime.Func: the function's name, none = nil
 	tSeqM   = &ty{k: "seqm"}    // *difflib.sequenceMatcher: the two sequences it was built from
+	tDyn    = &ty{k: "dyn"}     // a value passed as `any` whose dynamic type matters -> GoIO.Dyn
+	tJCfgO  = &ty{k: "jcfgopt"} // *JSONConfig -> Option GoIO.JSONConfig (nil = none)
+	tPOpts  = &ty{k: "popts"}   // *pretty.Options -> GoIO.PrettyOpts
 	tBad    = &ty{k: "?"}
 )
 
@@ -151,6 +154,12 @@ func (t *ty) lean() string {
 		return "UInt8"
 	case "cfg":
 		return "GoSnaps.Cfg"
+	case "dyn":
+		return "GoSnaps.GoIO.Dyn"
+	case "jcfgopt":
+		return "(Option GoSnaps.GoIO.JSONConfig)"
+	case "popts":
+		return "GoSnaps.GoIO.PrettyOpts"
 	case "err":
 		return "GoSnaps.GoIO.Err"
 	case "scanner":
@@ -281,6 +290,7 @@ type funcSpec struct {
 	extra   []param          // leading parameters of the Lean definition
 	externs map[string]param // printed Go expression (variable, selector, or call with its exact arguments) -> parameter
 	extFns  map[string]param // callee -> function parameter
+	ptypes  map[string]*ty   // parameter -> type, where the Go type alone does not determine the representation
 	recv    string           // methods: "<receiver name>:<kind>" (kind registry | sregistry); the receiver is in-out
 	out     string           // generated file: "" = Funcs.lean, "IO" = FuncsIO.lean
 	prints  bool             // fx = "rw" functions that call fmt.Println: parameter and result `stdout`
@@ -463,6 +473,18 @@ var funcSpecs = []funcSpec{
 		{"validate", fnOf(pairOf(tText, tErr), tText)}, {"takeJSON", fnOf(tText, tCfg, tText)}}},
 	{pkg: "snaps", name: "MatchStandaloneJSON", sig: "t:testingT,input:any,matchers:...match.JSONMatcher->", out: "IO", fx: "st", extra: []param{{"trimpath", tBool}, {"caller", tText}, {"runMatcher", fnOf(pairOf(tText, tMErrs), tMatch, tText)},
 		{"validate", fnOf(pairOf(tText, tErr), tText)}, {"takeJSON", fnOf(tText, tCfg, tText)}}},
+	// (after the flows, which take validation and formatting as parameters)
+	// the document pipelines: which form of input is validated, marshalled, pretty printed
+	{pkg: "snaps", name: "validateJSON", sig: "input:any->[]byte,error", out: "IO", ptypes: map[string]*ty{"input": tDyn},
+		extra: []param{{"gjsonValid", fnOf(tBool, tText)}, {"jsonMarshal", fnOf(pairOf(tText, tErr), tDyn)}},
+		extFns: map[string]param{"gjson.Valid": {"gjsonValid", fnOf(tBool, tText)}, "gjson.ValidBytes": {"gjsonValid", fnOf(tBool, tText)},
+			"json.Marshal": {"jsonMarshal", fnOf(pairOf(tText, tErr), tDyn)}}},
+	{pkg: "snaps", name: "validateYAML", sig: "input:any->[]byte,error", out: "IO", ptypes: map[string]*ty{"input": tDyn},
+		extra: []param{{"yamlUnmarshal", fnOf(tErr, tText)}, {"yamlMarshal", fnOf(pairOf(tText, tErr), tDyn)}}},
+	{pkg: "snaps", name: "JSONConfig.getPrettyJSONOptions", sig: "->*pretty.Options", out: "IO", recv: "j:jcfgopt"},
+	{pkg: "snaps", name: "takeJSONSnapshot", sig: "c:*Config,b:[]byte->string", out: "IO",
+		extra:  []param{{"jsonConfigOf", fnOf(tJCfgO, tCfg)}, {"prettyOptions", fnOf(tText, tText, tPOpts)}},
+		extFns: map[string]param{"pretty.PrettyOptions": {"prettyOptions", fnOf(tText, tText, tPOpts)}}},
 }
 
 // ---------------------------------------------------------------------------------------------
@@ -563,6 +585,14 @@ func (t *ftr) pop() {
 func (t *ftr) bind(n string, ty *ty) {
 	t.env[len(t.env)-1][n] = ty
 	delete(t.ren[len(t.ren)-1], n)
+}
+
+// bindAs: bind the Go variable n to the Lean name `lean`
+func (t *ftr) bindAs(n, lean string, ty *ty) {
+	t.bind(n, ty)
+	if lean != leanIdent(n) {
+		t.ren[len(t.ren)-1][n] = lean
+	}
 }
 
 // ln: the Lean name of the Go variable n (differs for variables of an `if` init statement, which
@@ -721,8 +751,13 @@ func goType(e ast.Expr) *ty {
 		if id, ok := e.X.(*ast.Ident); ok && id.Name == "Config" {
 			return tCfg
 		}
+		if selName(e.X) == "pretty.Options" {
+			return tPOpts
+		}
 		if id, ok := e.X.(*ast.Ident); ok {
 			switch id.Name {
+			case "JSONConfig":
+				return tJCfgO
 			case "anyMatcher":
 				return tAnyM
 			case "customMatcher":
@@ -1843,6 +1878,8 @@ func (t *ftr) block0(list []ast.Stmt, ind string, res *ty) string {
 			b.WriteString(t.forStmt(s, ind, res))
 		case *ast.RangeStmt:
 			b.WriteString(t.rangeStmt(s, ind, res))
+		case *ast.TypeSwitchStmt:
+			b.WriteString(t.typeSwitch(s, ind, res))
 		case *ast.BranchStmt:
 			if s.Label != nil || (s.Tok != token.BREAK && s.Tok != token.CONTINUE) {
 				t.stmtFail(&b, ind, "unsupported statement %s", t.src(s))
@@ -1853,6 +1890,77 @@ func (t *ftr) block0(list []ast.Stmt, ind string, res *ty) string {
 			t.stmtFail(&b, ind, "unsupported statement %T", st)
 		}
 	}
+	return b.String()
+}
+
+// typeSwitch: `switch j := x.(type) { case string: …; case []byte: …; default: … }` over a parameter of type
+// GoIO.Dyn: a match on the constructor; j is the string / the bytes in the first two clauses and x itself in
+// the default clause
+func (t *ftr) typeSwitch(s *ast.TypeSwitchStmt, ind string, res *ty) string {
+	var b strings.Builder
+	var bound string
+	var ta *ast.TypeAssertExpr
+	switch a := s.Assign.(type) {
+	case *ast.AssignStmt:
+		if a.Tok == token.DEFINE && len(a.Lhs) == 1 && len(a.Rhs) == 1 {
+			if id, ok := a.Lhs[0].(*ast.Ident); ok {
+				bound = id.Name
+				ta, _ = a.Rhs[0].(*ast.TypeAssertExpr)
+			}
+		}
+	case *ast.ExprStmt:
+		ta, _ = a.X.(*ast.TypeAssertExpr)
+	}
+	if s.Init != nil || ta == nil || ta.Type != nil {
+		t.stmtFail(&b, ind, "unsupported type switch")
+		return b.String()
+	}
+	xid, ok := ta.X.(*ast.Ident)
+	if !ok || t.lookup(xid.Name) == nil || t.lookup(xid.Name).k != "dyn" {
+		t.stmtFail(&b, ind, "type switch over %s, which is not a dynamically typed parameter", t.src(ta.X))
+		return b.String()
+	}
+	fmt.Fprintf(&b, "%smatch %s with\n", ind, t.ln(xid.Name))
+	seen := map[string]bool{}
+	var deflt *ast.CaseClause
+	for _, c := range s.Body.List {
+		cc := c.(*ast.CaseClause)
+		if cc.List == nil {
+			deflt = cc
+			continue
+		}
+		if len(cc.List) != 1 {
+			t.stmtFail(&b, ind, "type switch clause with several types")
+			return b.String()
+		}
+		ctor := map[string]string{"string": "str", "[]byte": "bytes"}[t.src(cc.List[0])]
+		if ctor == "" || seen[ctor] {
+			t.stmtFail(&b, ind, "type switch clause %s", t.src(cc.List[0]))
+			return b.String()
+		}
+		seen[ctor] = true
+		t.push()
+		name := "_"
+		if bound != "" {
+			t.tmp++
+			name = fmt.Sprintf("%s_%d", leanIdent(bound), t.tmp)
+			t.bindAs(bound, name, tText)
+		}
+		fmt.Fprintf(&b, "%s| GoSnaps.GoIO.Dyn.%s %s =>\n%s", ind, ctor, name, t.block(cc.Body, ind+"  ", res))
+		t.pop()
+	}
+	// the default clause takes every other dynamic type (and string / []byte when they have no clause)
+	fmt.Fprintf(&b, "%s| _ =>\n", ind)
+	if deflt == nil {
+		fmt.Fprintf(&b, "%s  pure ()\n", ind)
+		return b.String()
+	}
+	t.push()
+	if bound != "" {
+		t.bindAs(bound, t.ln(xid.Name), tDyn)
+	}
+	b.WriteString(t.block(deflt.Body, ind+"  ", res))
+	t.pop()
 	return b.String()
 }
 
@@ -1902,6 +2010,20 @@ func (t *ftr) returnStmt(b *strings.Builder, ind string, s *ast.ReturnStmt) {
 			fmt.Fprintf(b, "%sreturn %s\n", ind, tupleText(append(parts, x.s)))
 			return
 		}
+	}
+	if len(s.Results) == 1 && len(t.rets) > 1 {
+		// return f(x) with f returning all the results
+		x := t.exprMulti(s.Results[0], len(t.rets))
+		if t.err != nil {
+			b.WriteString(ind + "sorry\n")
+			return
+		}
+		if !x.t.eq(nestedPair(t.rets)) {
+			t.stmtFail(b, ind, "return types: %s", t.src(s))
+			return
+		}
+		fmt.Fprintf(b, "%sreturn %s\n", ind, tupleText(append(parts, x.s)))
+		return
 	}
 	if len(s.Results) != len(t.rets) {
 		t.stmtFail(b, ind, "return arity: %s", t.src(s))
@@ -2338,12 +2460,12 @@ func translateFunc(pkg *pkgInfo, sp *funcSpec, consts map[string]bool, funcs map
 	if sp.recv != "" {
 		// the receiver is the first, in-out parameter
 		parts := strings.SplitN(sp.recv, ":", 2)
-		rt := map[string]*ty{"registry": tReg, "sregistry": tSReg, "anym": tAnyM, "typem": tTypeM, "custm": tCustM, "cfg": tCfg}[parts[1]]
+		rt := map[string]*ty{"registry": tReg, "sregistry": tSReg, "anym": tAnyM, "typem": tTypeM, "custm": tCustM, "cfg": tCfg, "jcfgopt": tJCfgO}[parts[1]]
 		if rt == nil || len(fd.Recv.List) != 1 || len(fd.Recv.List[0].Names) != 1 || fd.Recv.List[0].Names[0].Name != parts[0] {
 			ffail("funcs: %s: receiver does not match %s", sp.name, sp.recv)
 		}
 		_, isPtr := fd.Recv.List[0].Type.(*ast.StarExpr)
-		isMatcher := rt.k == "anym" || rt.k == "typem" || rt.k == "custm" || rt.k == "cfg"
+		isMatcher := rt.k == "anym" || rt.k == "typem" || rt.k == "custm" || rt.k == "cfg" || rt.k == "jcfgopt"
 		// does the method assign a field of its receiver?
 		mutates := false
 		ast.Inspect(fd.Body, func(n ast.Node) bool {
@@ -2361,7 +2483,10 @@ func translateFunc(pkg *pkgInfo, sp *funcSpec, consts map[string]bool, funcs map
 		if !isPtr && (!isMatcher || mutates) {
 			ffail("funcs: %s: value receiver (the method cannot change its receiver)", sp.name)
 		}
-		if isMatcher && rt.k != "cfg" && !pkg.structIs(map[string]string{"anym": "anyMatcher", "typem": "typeMatcher", "custm": "customMatcher"}[rt.k],
+		if rt.k == "jcfgopt" && !pkg.structIs("JSONConfig", "Width:int,Indent:string,SortKeys:bool") {
+			ffail("funcs: %s: the struct JSONConfig changed", sp.name)
+		}
+		if isMatcher && rt.k != "cfg" && rt.k != "jcfgopt" && !pkg.structIs(map[string]string{"anym": "anyMatcher", "typem": "typeMatcher", "custm": "customMatcher"}[rt.k],
 			map[string]string{"anym": "paths:[],placeholder:any,errOnMissingPath:bool,name:string",
 				"typem": "paths:[],errOnMissingPath:bool,name:string,expectedType:any",
 				"custm": "callback:,errOnMissingPath:bool,name:string,path:string"}[rt.k]) {
@@ -2383,7 +2508,11 @@ func translateFunc(pkg *pkgInfo, sp *funcSpec, consts map[string]bool, funcs map
 			ffail("funcs: %s: unsupported parameter type %s", sp.name, t.src(f.Type))
 		}
 		for _, n := range f.Names {
-			if s := t.src(f.Type); s == "any" || s == "interface{}" {
+			pt := pt
+			if o := sp.ptypes[n.Name]; o != nil {
+				pt = o
+			}
+			if s := t.src(f.Type); (s == "any" || s == "interface{}") && pt.k == "text" {
 				anyP[len(pts)] = true
 			}
 			if (pt.k == "scanner" || pt.k == "file") && !isInout[n.Name] {
@@ -2518,6 +2647,22 @@ func translateFunc(pkg *pkgInfo, sp *funcSpec, consts map[string]bool, funcs map
 	_, endsInReturn := fd.Body.List[n-1].(*ast.ReturnStmt)
 	if fs, ok := fd.Body.List[n-1].(*ast.ForStmt); ok && fs.Cond == nil {
 		endsInReturn = true // an unbounded loop: control never falls out of it
+	}
+	if ts, ok := fd.Body.List[n-1].(*ast.TypeSwitchStmt); ok {
+		// a type switch with a default clause, every clause ending in a return
+		all, hasDefault := true, false
+		for _, c := range ts.Body.List {
+			cc := c.(*ast.CaseClause)
+			if cc.List == nil {
+				hasDefault = true
+			}
+			if len(cc.Body) == 0 {
+				all = false
+			} else if _, ok := cc.Body[len(cc.Body)-1].(*ast.ReturnStmt); !ok {
+				all = false
+			}
+		}
+		endsInReturn = all && hasDefault
 	}
 	if len(rts) > 0 && !endsInReturn {
 		// every path of a Go function with results ends in a return
